@@ -113,6 +113,20 @@ OPS = {
 }
 
 
+# small universes enumerated exhaustively to a greater length than OPS: a fixed value, a
+# precision and bounds that lie between the value and its rounding; falsy / boundary lengths
+FOCUS = {
+    "float": (_one("call", ["1.16", "1.24", "0.0"]) + _one("precision", ["1", "0"]) +
+              _one("min", ["1.2", "1.16", "0.0"]) + _one("max", ["1.2", "1.24", "0.0"]), 4),
+    "int": (_one("call", ["0", "5"]) + _one("min", ["0", "5", "6"]) + _one("max", ["0", "5", "4"]), 3),
+    "str": (_one("call", ["''", "'ab'"]) + _one("alphabet", ["''", "'ab'"]) + _one("contains", ["''", "'b'"]) +
+            [("len", ("0",)), ("len", ("2",)), ("len", ("0", "...")), ("len", ("...", "0")), ("len", ("0", "0")),
+             ("len", ("...", "2"))], 3),
+    "list": (_one("call", ["[]", "[schema.int(0)]", "schema.int"]) +
+             [("len", ("0",)), ("len", ("1",)), ("len", ("0", "...")), ("len", ("...", "0")), ("len", ("0", "0"))], 3),
+}
+
+
 def ev(src):
     return eval(src, dict(NS))
 
